@@ -64,6 +64,9 @@ impl UrlPath {
 
             if _char == ']' && previous_char.is_some() && previous_char.unwrap() == ']' {
                 is_opened_token = false;
+                if _buffer.len() < 2 {
+                    return Err("at least one extra ] char".to_string());
+                }
                 let without_square_brackets = _buffer.len() - 2;
                 let key : String = _buffer[0..without_square_brackets].into_iter().collect();
                 let part = Part {
@@ -149,6 +152,9 @@ impl UrlPath {
                 } else {
                     let next_part = parts.get(index + 1).unwrap();
                     println!("3, {}", part);
+                    if next_part.static_pattern.is_none() {
+                        return Err("two consecutive tokens one after another".to_string());
+                    }
                     let delimiter = next_part.static_pattern.clone().unwrap().chars().next().unwrap();
                     let occurence = url_path.find(delimiter);
                     if occurence.is_none() {
@@ -229,7 +235,11 @@ impl UrlPath {
                 let static_pattern = part.static_pattern.clone().unwrap();
                 // println!("static pattern {:?}", static_pattern);
                 // println!("path {:?}", path);
-                path = path.strip_prefix(static_pattern.as_str()).unwrap().to_string();
+                let boxed_path_without_static_pattern = path.strip_prefix(static_pattern.as_str());
+                if boxed_path_without_static_pattern.is_none() {
+                    return Err("path does not match the pattern".to_string());
+                }
+                path = boxed_path_without_static_pattern.unwrap().to_string();
             } else {
                 // continue, unless the part is last,
                 // if so read to the end of path and add to map
@@ -250,6 +260,9 @@ impl UrlPath {
 
         let mut map = HashMap::new();
         for part in resulting_parts {
+            if part.name.is_none() || part.value.is_none() {
+                return Err("two consecutive static parts in the pattern".to_string());
+            }
             let key = part.name.unwrap();
             let value = part.value.unwrap();
 
